@@ -2,6 +2,9 @@ import Gv.Oracle.Common
 import Gv.Spec.Fmt
 import Gv.Model.Fmt.Fasta
 import Gv.Model.Fmt.Phylip
+import Gv.Model.Fmt.Stockholm
+import Gv.Model.Fmt.Clustal
+import Gv.Model.Fmt.Partition
 import Gv.Gen.FmtFacts
 /-!
 Oracle handlers for the alignment formats (C02 round trips, C03 parser outcomes).
@@ -91,6 +94,9 @@ def modelParse (fmt : String) (o : POpts) (bs : List Byte) : Option PRes :=
     match Phylip.parseOne Gen.FmtFacts.phylip_allocates_from_header o { inp := bs } with
     | .ok (.slow, _) => none      -- allocation of 2^27 … 2^44 entries: machine dependent, not compared
     | r => some (Phylip.toOutcome r)
+  | "stockholm" => some (liftOutcome (Stockholm.parse Gen.FmtFacts.stockholm_markup_stops_at_eof
+      Gen.FmtFacts.stockholm_rejects_empty o bs))
+  | "clustal" => some (liftOutcome (Clustal.parse Gen.FmtFacts.clustal_checks_row_index o bs))
   | _ => none
 
 /-- what `buildAlign` of the harness does: AddSequence one by one under IGNORE_NONE -/
@@ -101,11 +107,16 @@ def buildRows (rows : XRows) : Option Bag :=
 def builtAlphabet (alpha : String) (b : Bag) : Option Nat :=
   if alpha == "auto" then (b.finish BOTH).map (·.alphabet) else alpha.toNat?
 
+/-- `version.Version` of the harness build (no -ldflags): the literal in version/version.go -/
+def harnessVersion : List Byte := "Unset".toUTF8.toList
+
 def modelWrite (fmt : String) (_w : WOpts) (_alphabet : Nat) (b : Bag) : Option (List Byte) :=
   if !(b.rows.all fun r => allAscii r.1 && allAscii r.2) then none else
   match fmt with
   | "fasta" => some (Fasta.write Gen.c_FASTA_LINE.toNat b.rows)
   | "phylip" => some (Phylip.write _w.strict _w.oneline _w.noblock b.rows)
+  | "stockholm" => some (Stockholm.write b.rows)
+  | "clustal" => some (Clustal.write harnessVersion _alphabet b.rows)
   | _ => none
 
 /-! ### C03 predicate on the implementation's outcome -/
@@ -219,9 +230,21 @@ def modelMulti (o : POpts) (bs : List Byte) : String :=
 def handle : Handler := fun op args impl =>
   match op, args with
   | "parse", ["partition", len, hex] => do
-    let _ ← unhexz hex
+    let bs ← unhexz hex
     let len ← parseInt? len
-    some ⟨"unmodelled", partVerdict len impl⟩
+    let m :=
+      if !allAscii bs || len < 0 then "unmodelled" else
+      match Partition.parse ⟨Gen.FmtFacts.partition_rejects_start_after_end, Gen.FmtFacts.partition_guards_step_overflow⟩
+          len.toNat bs with
+      | .ok ps =>
+        let names := if ps.names.isEmpty then "_" else
+          ",".intercalate (ps.names.map fun nm => hexz nm.1 ++ "|" ++ hexz nm.2)
+        s!"ok {ps.length} {names} {encInts ps.parts}"
+      | .error => "err"
+      | .exit => "exit:1"
+      | .panic => "panic"
+      | .hang => "hang"
+    some ⟨canon m impl, partVerdict len impl⟩
   | "parse", [fmt, o, hex] => do
     let o ← decPOpts o
     let bs ← unhexz hex
